@@ -14,8 +14,8 @@ func newCaseWriter(o *hx.Opts, res *hx.Result) *caseWriter {
 func (c *caseWriter) add(h History, r runResult) {
 	c.cw.Add(func(id int) string {
 		var steps []string
-		for _, ob := range r.Obs {
-			steps = append(steps, cfgsm.CoqStep(false, ob.Ops, nil, 0, cfgsm.CoqObs(ob.Disk, ob.Err != "", ob.Reload, false)))
+		for i, ob := range r.Obs {
+			steps = append(steps, cfgsm.CoqStep(false, ob.Ops, h.faultsOf(i), 0, cfgsm.CoqObs(ob.Disk, ob.Err != "", ob.Reload, false)))
 		}
 		return cfgsm.CoqCase(id, h.Shards, false, steps)
 	}, h)
